@@ -22,8 +22,8 @@ from concurrent.futures import ThreadPoolExecutor
 
 DRIVER = "drv_c05"
 N_CALLS = {
-    "lattice": {"quick": 60000, "thorough": 3000000},
-    "general": {"quick": 6000, "thorough": 300000},
+    "lattice": {"quick": 60000, "thorough": 2400000},
+    "general": {"quick": 6000, "thorough": 200000},
 }
 
 
